@@ -8,7 +8,10 @@
    ReplyLocksTarget = TRUE is the variant where YieldRef additionally holds the TARGET's own closedM while it
    replies (a plausible "protect the reply" refactor): with a full opCh that deadlocks.                     *)
 EXTENDS Integers, Sequences, FiniteSets, TLC
-CONSTANTS Callers, NReq, NServe, OpCap, ResCap, ReplyLocksTarget
+CONSTANTS Callers, NReq, NServe, OpCap, ResCap, ReplyLocksTarget,
+          SafeCompletion   \* TRUE (the fixed code): senders re-check done under closedM, an undeliverable YieldFrom returns the zero
+                           \*   value, a completing coroutine answers the requests left in its mailbox with the zero value;
+                           \* FALSE (the pinned code): done checked once outside the lock, an undelivered request waits forever
 T == "T"
 Cors == Callers \cup {T}
 VARIABLES done, opq, opClosed, resq, resClosed, mtx,
@@ -33,12 +36,16 @@ Init ==
 CCheckSelf(c) == /\ cpc[c] = "checkself" /\ ck[c] < NReq
                  /\ cpc' = [cpc EXCEPT ![c] = "checktarget"]
                  /\ UNCHANGED <<done, opq, opClosed, resq, resClosed, mtx, tpc, tk, tcur, tgot, ck, cgot, panicked>>
+Undelivered(c) == /\ cgot' = [cgot EXCEPT ![c] = Append(@, 0)] /\ ck' = [ck EXCEPT ![c] = @ + 1]   \* YieldFrom returns the zero value
+                  /\ cpc' = [cpc EXCEPT ![c] = "checkself"]
 CCheckTarget(c) == /\ cpc[c] = "checktarget"
-                   /\ cpc' = [cpc EXCEPT ![c] = IF done[T] THEN "recv" ELSE "lock"]
-                   /\ UNCHANGED <<done, opq, opClosed, resq, resClosed, mtx, tpc, tk, tcur, tgot, ck, cgot, panicked>>
-CLock(c) == /\ cpc[c] = "lock" /\ mtx[T] = "free" /\ mtx' = [mtx EXCEPT ![T] = c]
-            /\ cpc' = [cpc EXCEPT ![c] = "send"]
-            /\ UNCHANGED <<done, opq, opClosed, resq, resClosed, tpc, tk, tcur, tgot, ck, cgot, panicked>>
+                   /\ IF done[T] /\ SafeCompletion THEN Undelivered(c)
+                      ELSE cpc' = [cpc EXCEPT ![c] = IF done[T] THEN "recv" ELSE "lock"] /\ UNCHANGED <<ck, cgot>>
+                   /\ UNCHANGED <<done, opq, opClosed, resq, resClosed, mtx, tpc, tk, tcur, tgot, panicked>>
+CLock(c) == /\ cpc[c] = "lock" /\ mtx[T] = "free"
+            /\ IF SafeCompletion /\ done[T] THEN Undelivered(c) /\ UNCHANGED mtx                          \* re-check under the lock
+               ELSE mtx' = [mtx EXCEPT ![T] = c] /\ cpc' = [cpc EXCEPT ![c] = "send"] /\ UNCHANGED <<ck, cgot>>
+            /\ UNCHANGED <<done, opq, opClosed, resq, resClosed, tpc, tk, tcur, tgot, panicked>>
 CSend(c) == /\ cpc[c] = "send"
             /\ IF opClosed
                  THEN /\ panicked' = panicked \cup {c} /\ cpc' = [cpc EXCEPT ![c] = "dead"]
@@ -81,7 +88,8 @@ TReplyLock == /\ tpc = "replylock" /\ mtx[tcur.c] = "free" /\ (ReplyLocksTarget 
               /\ mtx' = [mtx EXCEPT ![tcur.c] = T, ![T] = IF ReplyLocksTarget THEN T ELSE @] /\ tpc' = "replysend"
               /\ UNCHANGED <<done, opq, opClosed, resq, resClosed, tk, tcur, tgot, cpc, ck, cgot, panicked>>
 TReplySend == /\ tpc = "replysend"
-              /\ IF resClosed[tcur.c]
+              /\ IF SafeCompletion /\ done[tcur.c] THEN tpc' = "ret" /\ UNCHANGED <<resq, panicked>>   \* re-check under the lock
+                 ELSE IF resClosed[tcur.c]
                    THEN /\ panicked' = panicked \cup {T} /\ tpc' = "dead" /\ UNCHANGED resq
                    ELSE /\ Len(resq[tcur.c]) < ResCap
                         /\ resq' = [resq EXCEPT ![tcur.c] = Append(@, Y(tk + 1))]
@@ -92,11 +100,21 @@ TRet == /\ tpc = "ret" /\ tgot' = Append(tgot, tcur) /\ tk' = tk + 1 /\ tpc' = "
         /\ UNCHANGED <<done, opq, opClosed, resq, resClosed, mtx, tcur, cpc, ck, cgot, panicked>>
 TFinish == /\ tpc = "check" /\ tk = NServe /\ done' = [done EXCEPT ![T] = TRUE] /\ tpc' = "closelock"
            /\ UNCHANGED <<opq, opClosed, resq, resClosed, mtx, tk, tcur, tgot, cpc, ck, cgot, panicked>>
-TCloseLock == /\ tpc = "closelock" /\ mtx[T] = "free" /\ opClosed' = TRUE /\ tpc' = "finished"
+TCloseLock == /\ tpc = "closelock" /\ mtx[T] = "free" /\ opClosed' = TRUE
+              /\ tpc' = IF SafeCompletion THEN "drain" ELSE "finished"
               /\ UNCHANGED <<done, opq, resq, resClosed, mtx, tk, tcur, tgot, cpc, ck, cgot, panicked>>
+\* the fixed close(): answer every request left in the closed mailbox with the zero value (done check + the caller's closedM + send, one step:
+\* the stranded caller is parked in its receive and cannot complete meanwhile)
+TDrain == /\ tpc = "drain"
+          /\ IF opq = <<>> THEN tpc' = "finished" /\ UNCHANGED <<opq, resq>>
+             ELSE LET r == Head(opq) IN
+                  /\ mtx[r.c] = "free" /\ Len(resq[r.c]) < ResCap
+                  /\ opq' = Tail(opq) /\ resq' = [resq EXCEPT ![r.c] = IF done[r.c] THEN @ ELSE Append(@, 0)]
+                  /\ UNCHANGED tpc
+          /\ UNCHANGED <<done, opClosed, resClosed, mtx, tk, tcur, tgot, cpc, ck, cgot, panicked>>
 
 Next == \/ \E c \in Callers : CCheckSelf(c) \/ CCheckTarget(c) \/ CLock(c) \/ CSend(c) \/ CRecv(c) \/ CFinish(c) \/ CCloseLock(c)
-        \/ TCheck \/ TTake \/ TReplyCheck \/ TReplyLock \/ TReplySend \/ TRet \/ TFinish \/ TCloseLock
+        \/ TCheck \/ TTake \/ TReplyCheck \/ TReplyLock \/ TReplySend \/ TRet \/ TFinish \/ TCloseLock \/ TDrain
 Spec == Init /\ [][Next]_vars
 
 Inv_NoPanic == panicked = {}
